@@ -50,7 +50,11 @@ def gen_family_one(name, grammars, with_pest=True, extra_main="", extra_mods=Non
         write_if_changed(os.path.join(d, "src", gid + ".rs"), src)
         mods.append("mod %s;" % gid)
         for r in g["rules"]:
-            if pest:
+            if r in g.get("tree_rules", []):
+                arms.append('        ("%s", "%s") => obs_tree!(%s, r#%s, job),' % (gid, r, gid, r))
+            elif r in g.get("pair_rules", []):
+                arms.append('        ("%s", "%s") => obs_pair!(%s, r#%s, job),' % (gid, r, gid, r))
+            elif pest:
                 arms.append('        ("%s", "%s") => obs!(%s, r#%s, job),' % (gid, r, gid, r))
             else:
                 arms.append('        ("%s", "%s") => obs_t!(%s, r#%s, job),' % (gid, r, gid, r))
@@ -73,6 +77,27 @@ macro_rules! obs {
         m.insert("t".into(), hcommon::observe_typed::<$g::t::Rule, $g::t::rules::$r>($job));
         if $job.has('P') {
             m.insert("p".into(), hcommon::observe_pest::<$g::p::Rule, $g::p::P>($g::p::Rule::$r, &$job.full));
+        }
+        Value::Object(m)
+    }};
+}
+macro_rules! obs_pair {
+    ($g:ident, $r:ident, $job:expr) => {{
+        let mut m = serde_json::Map::new();
+        m.insert("t".into(), hcommon::observe_typed::<$g::t::Rule, $g::t::rules::$r>($job));
+        if $job.has('T') {
+            m.insert("pair".into(), hcommon::observe_pair::<$g::t::Rule, $g::t::rules::$r>($job));
+        }
+        Value::Object(m)
+    }};
+}
+macro_rules! obs_tree {
+    ($g:ident, $r:ident, $job:expr) => {{
+        let mut m = serde_json::Map::new();
+        m.insert("t".into(), hcommon::observe_typed::<$g::t::Rule, $g::t::rules::$r>($job));
+        if $job.has('T') {
+            m.insert("pair".into(), hcommon::observe_pair::<$g::t::Rule, $g::t::rules::$r>($job));
+            m.insert("tree".into(), hcommon::observe_tree::<$g::t::Rule, $g::t::rules::$r>($job));
         }
         Value::Object(m)
     }};
@@ -126,7 +151,7 @@ def gen_family(name, grammars, with_pest=True, extra_main="", extra_mods=None):
 def sync_workspace():
     fams = sorted(f for f in os.listdir(os.path.join(HARNESS, "fam"))
                   if os.path.exists(os.path.join(HARNESS, "fam", f, "Cargo.toml"))) if os.path.isdir(os.path.join(HARNESS, "fam")) else []
-    members = ['"pest2json"', '"hcommon"', '"textrun"'] + ['"fam/%s"' % f for f in fams]
+    members = ['"pest2json"', '"hcommon"', '"textrun"', '"genrun"'] + ['"fam/%s"' % f for f in fams]
     text = """[workspace]
 resolver = "2"
 members = [%s]
